@@ -19,7 +19,10 @@ import subprocess
 
 VERIF = os.path.dirname(os.path.dirname(os.path.abspath(__file__)))
 REPO = os.environ.get("VERIF_REPO", "/repo")
-COQ = os.path.join(VERIF, "coq")
+# VERIF_COQ_DIR: a private copy of coq/ (used by notes/seed_matrix.py so that runs against different trees, which regenerate
+# coq/Gen differently, can proceed in parallel); registered commands never set it
+COQ = os.environ.get("VERIF_COQ_DIR") or os.path.join(VERIF, "coq")
+REPLAYS = os.environ.get("VERIF_REPLAY_DIR") or os.path.join(VERIF, "replays")
 GEN = os.path.join(COQ, "Gen")
 PY = "/venv/bin/python"
 COQ_DIRS = ["Lib", "Spec", "Gen", "Model", "Proofs", "Props", "Extract"]
@@ -64,7 +67,8 @@ def use_repo_in_process():
 # --------------------------------------------------------------------------- lock
 class Lock:
     def __init__(self, name="build"):
-        self.path = os.path.join(COQ, f".{name}.lock")
+        # the OCaml drivers are shared by every run (no extraction file depends on coq/Gen); coq/ may be a private copy
+        self.path = os.path.join(VERIF, "ocaml", ".ocaml.lock") if name == "ocaml" else os.path.join(COQ, f".{name}.lock")
 
     def __enter__(self):
         self.fd = open(self.path, "w")
@@ -367,8 +371,8 @@ def jsonable(x):
 
 
 def write_replay(ctx, n, payload):
-    os.makedirs(os.path.join(VERIF, "replays"), exist_ok=True)
-    path = os.path.join(VERIF, "replays", f"{ctx.prop}-{ctx.seed}-{n}.json")
+    os.makedirs(REPLAYS, exist_ok=True)
+    path = os.path.join(REPLAYS, f"{ctx.prop}-{ctx.seed}-{n}.json")
     payload = dict(payload)
     payload.update({"property": ctx.prop, "seed": ctx.seed, "tier": ctx.tier})
     with open(path, "w", encoding="utf-8") as fd:
